@@ -142,7 +142,9 @@ func (g *docgen) text() {
 	}
 	var sb strings.Builder
 	for k := rapid.IntRange(1, 4).Draw(t, "tn"); k > 0; k-- {
-		sb.WriteString(rapid.SampledFrom([]string{"text", " ", "\n", "&amp;", "&", "é", "<1", "< ", "<<", ">", "\"", "'", "a=b", "</>", "<>", "-->", "]]>", "/", "{", "%", "?"}).Draw(t, "tpart"))
+		sb.WriteString(rapid.SampledFrom([]string{"text", " ", "\n", "&amp;", "&", "é", "<1", "< ", "<<", ">", "\"", "'", "a=b", "</>", "<>", "-->", "]]>", "/", "{", "%", "?",
+			// what a region ends with, directly behind a region: it is ordinary text
+			"}", "}x", "%>", "?>", "}}"}).Draw(t, "tpart"))
 	}
 	s := g.sanitizeText(sb.String())
 	g.add(tok{html.TextToken, s, s, noVal, false})
@@ -422,7 +424,16 @@ func (g *docgen) rawElement() {
 		switch p {
 		case "ESC":
 			if n != "script" {
-				sb.WriteString("<!-- c -->")
+				// the double-escape rules are the script element's alone: in the other raw-text elements <!-- and a
+				// look-alike start tag of the element change nothing, the first end tag ends the element
+				sb.WriteString("<!--")
+				for j := rapid.IntRange(0, 3).Draw(t, "rawescn"); j > 0; j-- {
+					sb.WriteString(rapid.SampledFrom([]string{" c ", "<" + randCase(t, n) + ">", "<" + n + " x>", "<" + n + "/>", "<script>", "-->", "--", "\n"}).Draw(t, "rawescpart"))
+				}
+				if rapid.Bool().Draw(t, "rawescclose") {
+					sb.WriteString("-->")
+				}
+				g.classes["rawtext-comment-lookalike"]++
 				continue
 			}
 			// script double escape: inside <!-- ... -->, </script> after <script does not end the element
@@ -722,6 +733,13 @@ var twinTmpl = gen.Twin{New: func() func() bool {
 	return func() bool { tt, _ := l.Next(); _, _ = l.Text(), l.AttrVal(); return tt != html.ErrorToken }
 }}
 
+// supply: the document reaches the lexer in one of the ways a caller can supply it (in place, string, readers); the
+// lexer lower-cases names in place, so the caller's bytes are not compared afterwards
+func supply(src string) *parse.Input {
+	in, _, _ := gen.Supply([]byte(src), "</script></svg>\"'-->")
+	return in
+}
+
 func lex(l *html.Lexer, n int) []tok {
 	var out []tok
 	for i := 0; i <= n+2; i++ {
@@ -773,7 +791,7 @@ func TestProp_Document(t *testing.T) {
 	ev.Check(t, 15000, func(t *rapid.T) {
 		g := genDoc(t, [2]string{})
 		src := g.upcase()
-		got := lex(html.NewLexer(parse.NewInputString(src)), len(src))
+		got := lex(html.NewLexer(supply(src)), len(src))
 		compare(t, src, got, g.toks)
 		nt := len(g.toks) >= 3 && (g.classes["attribute"] > 0 || g.classes["foreign"] > 0 || g.classes["starttag"] < len(g.toks) && hasRaw(g))
 		ev.Case("document", src, nt, classes(g)...)
@@ -798,7 +816,7 @@ func TestProp_Templates(t *testing.T) {
 		d := dialects[name]
 		g := genDoc(t, d)
 		src := g.upcase()
-		got := lex(html.NewTemplateLexer(parse.NewInputString(src), d), len(src))
+		got := lex(html.NewTemplateLexer(supply(src), d), len(src))
 		compare(t, src, got, g.toks)
 		inner := false
 		for _, k := range g.toks {
